@@ -132,7 +132,10 @@ func (brr *BalanceRR) checkSlowStart() {
 				backend.SetRestart(false)
 				backendRR.initSlowStart(brr.slowStartTime)
 			}
-			backendRR.updateSlowStart()
+			if backendRR.updateSlowStart() {
+				// final weight reached, restart the round with it
+				brr.backends.ResetWeight()
+			}
 		}
 	}
 }
@@ -165,6 +168,9 @@ func (brr *BalanceRR) Update(conf cluster_table_conf.SubClusterBackend) {
 	brr.Lock()
 	defer brr.Unlock()
 
+	// whether the backend set or any weight is changed by this update
+	changed := false
+
 	// go through backendsOld, make update and delete
 	for index := 0; index < len(brr.backends); index++ {
 		backendRR := brr.backends[index]
@@ -173,13 +179,20 @@ func (brr *BalanceRR) Update(conf cluster_table_conf.SubClusterBackend) {
 		bkConf, ok := confMap[backendKey]
 		if ok && backendRR.MatchAddrPort(*bkConf.Addr, *bkConf.Port) {
 			// found existing backend
+			if backendRR.weight != *bkConf.Weight*100 {
+				changed = true
+			}
 			backendRR.UpdateWeight(*bkConf.Weight)
 			backendsNew = append(backendsNew, backendRR)
 			delete(confMap, backendKey)
 		} else {
 			// tell healthcheck to stop
 			backendRR.Release()
+			changed = true
 		}
+	}
+	if len(confMap) > 0 {
+		changed = true
 	}
 
 	// add new backend to backendsNew
@@ -196,6 +209,12 @@ func (brr *BalanceRR) Update(conf cluster_table_conf.SubClusterBackend) {
 	brr.backends = backendsNew
 	brr.sorted = false
 	brr.next = 0
+
+	// restart the round with the new weights; credits accumulated under
+	// the old backend set or weights would skew the following selections
+	if changed {
+		brr.backends.ResetWeight()
+	}
 }
 
 // initWeight initializes all backendRR.current to backendRR.weight.
@@ -245,7 +264,26 @@ func (brr *BalanceRR) smoothBalance() (*backend.BfeBackend, error) {
 	brr.Lock()
 	defer brr.Unlock()
 
+	brr.resetOnEligibleChange()
 	return smoothBalance(brr.backends)
+}
+
+// resetOnEligibleChange restarts the smooth round when the set of eligible
+// backends differs from the one seen by the previous selection (a backend
+// went down or came back). Credits accumulated under the old set would
+// otherwise skew the shares of the following selections.
+func (brr *BalanceRR) resetOnEligibleChange() {
+	changed := false
+	for _, backendRR := range brr.backends {
+		eligible := backendRR.backend.Avail() && backendRR.weight > 0
+		if eligible != backendRR.eligible {
+			backendRR.eligible = eligible
+			changed = true
+		}
+	}
+	if changed {
+		brr.backends.ResetWeight()
+	}
 }
 
 func smoothBalance(backs BackendList) (*backend.BfeBackend, error) {
